@@ -106,6 +106,32 @@ func c19Run(c *fw.Ctx) fw.Outcome {
 		}
 		c.Count("writer_orders_checked", 1)
 	}
+	// (g) what was written in between does not matter: other lists of every kind, and this list with the TTML
+	// writer's indentation option, are written, then the list itself again
+	for k := uint64(1); k <= 3; k++ {
+		other := richSubtitles(fw.NewRand(seed + k*0x9e3779b97f4a7c15))
+		for _, w := range allWriters {
+			writeBytes(w, other)
+		}
+	}
+	for _, ind := range []string{"\t", "", "  "} {
+		var b1, b2 bytes.Buffer
+		e1 := s.WriteToTTML(&b1, astisub.WriteToTTMLWithIndentOption(ind))
+		e2 := s.WriteToTTML(&b2, astisub.WriteToTTMLWithIndentOption(ind))
+		if !bytes.Equal(b1.Bytes(), b2.Bytes()) || (e1 != nil) != (e2 != nil) {
+			return fw.Bad(key, desc, "ttml writer with indentation %q: two writes of the same list differ ({%s}): %s", ind, desc, firstDiff(b1.String(), b2.String()))
+		}
+	}
+	for _, w := range allWriters {
+		b, err, p := writeBytes(w, s)
+		if p != "" || !bytes.Equal(b, solo[w.name]) || (err != nil) != soloErr[w.name] {
+			return fw.Bad(key, desc, "%s writer: after other lists (and this one with another TTML indentation) were written in between, the same list gives different bytes ({%s}): %s %s", w.name, desc, firstDiff(string(solo[w.name]), string(b)), p)
+		}
+	}
+	c.Count("rewrites_after_other_lists", int64(len(allWriters)))
+	if after := deepDump(s); after != before {
+		return fw.Bad(key, desc, "a writer modified the cue list it was given ({%s}): %s", desc, firstDiff(before, after))
+	}
 	// (e) the injectable clock: only STL may depend on it, and only when the metadata lacks a date, and only in the
 	// creation/revision date bytes of the GSI block
 	defer func() { astisub.Now = func() time.Time { return fixedNow } }()
@@ -206,18 +232,19 @@ func init() {
 	fw.Register(&fw.Property{
 		ID:          "C19",
 		Level:       "exploration",
-		Rule:        "case = one cue list with 0..6 styles and 0..6 regions having heterogeneous attribute subsets (SSA attribute subsets, TTML attributes, WebVTT STYLE lines spread over several styles, styles without inline attributes, parents), metadata of every format present or absent, STL dates both/one/none. Oracle: (a) each of the 5 writers run 50 times on the list gives one distinct output; (b) driver phase: the same lists written in 4 (thorough 8) fresh processes give the same hashes; (c) a pointer-graph-aware deep dump of the list is identical before and after every write; (d) writing to the five formats in 24 (thorough: all 120) different orders on one list object gives the solo outputs; (e) under two different injected clocks all outputs are identical except STL when the metadata lacks a date, and then only GSI bytes 224..235 differ; (f) the package state digest (verif hook) is unchanged at the end of the worker. distinct_nontrivial = distinct lists.",
+		Rule:        "case = one cue list with 0..6 styles and 0..6 regions having heterogeneous attribute subsets (SSA attribute subsets, TTML attributes, WebVTT STYLE lines spread over several styles, styles without inline attributes, parents), metadata of every format present or absent, STL dates both/one/none. Oracle: (a) each of the 5 writers run 50 times on the list gives one distinct output; (b) driver phase: the same lists written in 4 (thorough 8) fresh processes give the same hashes; (c) a pointer-graph-aware deep dump of the list is identical before and after every write; (d) writing to the five formats in 24 (thorough: all 120) different orders on one list object gives the solo outputs; (e) under two different injected clocks all outputs are identical except STL when the metadata lacks a date, and then only GSI bytes 224..235 differ; (f) the package state digest (verif hook) and the data-segment digests (every package-level variable of the library as linked into the monitor, byte for byte and through slices/strings/pointers using the debug information) are unchanged at the end of the worker; (g) after three other lists have gone through all writers and the list itself through the TTML writer with three indentation options, every writer still gives the solo output. distinct_nontrivial = distinct lists.",
 		Assumptions: []string{"map iteration order is randomised by the Go runtime on every range statement, so 50 repetitions expose order dependence with overwhelming probability when at least two map entries contribute"},
 		Cases:       func(tier string) int64 { return tierN(tier, 300, 5000) },
 		Setup: func(c *fw.Ctx) error {
 			c19Digest = stateDigest()
+			datasegMark()
 			return nil
 		},
 		Final: func(c *fw.Ctx) []fw.Outcome {
 			if d := stateDigest(); d != c19Digest {
 				return []fw.Outcome{fw.Bad(1, nil, "the package state digest changed while writing (%s -> %s): a writer left mutable package state behind", c19Digest, d)}
 			}
-			return []fw.Outcome{fw.OK(fw.HashString(c19Digest), "state digest unchanged: "+c19Digest)}
+			return []fw.Outcome{fw.OK(fw.HashString(c19Digest), "state digest unchanged: "+c19Digest), datasegVerdict("while writing")}
 		},
 		Driver:  c19Driver,
 		Anchors: []string{"WriteToSRT", "WriteToSSA", "WriteToSTL", "WriteToTTML", "WriteToWebVTT", "newGSIBlock", "Now"},
